@@ -50,6 +50,9 @@ Proof.
   - auto.
 Qed.
 
+Lemma filter_length_le {A} (f : A -> bool) l : (length (filter f l) <= length l)%nat.
+Proof. induction l as [|a t IH]; simpl; [lia|]. destruct (f a); simpl; lia. Qed.
+
 Section Jobs.
   Variable content : Type.
   Notation job := (job content).
@@ -58,19 +61,15 @@ Section Jobs.
   (* ---- vocabulary of the statements ------------------------------------------------------------------------------ *)
   (* a job writes only files it looks at, each once *)
   Definition wf_job j : Prop := incl (map fst (j_plan j)) (j_files j) /\ NoDup (map fst (j_plan j)).
-  (* a molecule that is fingerprinted successfully writes every one of its files; a failing one writes none *)
+  (* a molecule that is fingerprinted successfully plans a write for every one of its files; a failing one plans none *)
   Definition complete j : Prop := map fst (j_plan j) = j_files j.
   Definition all_or_nothing j : Prop := j_plan j = [] \/ complete j.
   (* no two jobs share an output path (molecule names are distinct), no job lists a path twice *)
   Definition disjoint (js : list job) : Prop := NoDup (flat_map j_files js).
   Definition agree (ps : list path) (a b : fsmap content) : Prop := forall p, In p ps -> fs_lookup a p = fs_lookup b p.
-  (* files already present hold what the jobs would write (e.g. they come from an earlier run on the same inputs) *)
-  Definition consistent fs (js : list job) : Prop :=
-    forall j, In j js -> forall p c, In (p, c) (j_plan j) -> fs_lookup fs p = None \/ fs_lookup fs p = Some c.
   Definition all_exist fs j : Prop := forall p, In p (j_files j) -> fs_isfile fs p = true.
 
   Lemma agree_refl ps a : agree ps a a. Proof. intros p _. reflexivity. Qed.
-  Lemma agree_sym ps a b : agree ps a b -> agree ps b a. Proof. intros H p Hp. symmetry. auto. Qed.
   Lemma agree_trans ps a b c : agree ps a b -> agree ps b c -> agree ps a c.
   Proof. intros H1 H2 p Hp. rewrite (H1 p Hp). auto. Qed.
 
@@ -82,30 +81,52 @@ Section Jobs.
   Lemma skips_all_exist ow fs j : job_skips ow fs j = true -> all_exist fs j.
   Proof. unfold job_skips. rewrite andb_true_iff. intros [H _] p Hp. rewrite forallb_forall in H. auto. Qed.
 
-  Lemma all_exist_skips fs j : all_exist fs j -> job_skips false fs j = true.
-  Proof. intro H. unfold job_skips. rewrite andb_true_r. apply forallb_forall. exact H. Qed.
-
   Lemma skips_overwrite fs j : job_skips true fs j = false.
   Proof. unfold job_skips. apply andb_false_r. Qed.
 
+  (* for a well-formed job the skip test is subsumed by the per-file test *)
+  Lemma job_writes_filter ow fs j : wf_job j -> job_writes ow fs j = filter (fs_keep ow fs) (j_plan j).
+  Proof.
+    intros [Hinc _]. unfold job_writes. destruct (job_skips ow fs j) eqn:E; [|reflexivity].
+    unfold job_skips in E. apply andb_true_iff in E. destruct E as [Eall Eow]. rewrite forallb_forall in Eall.
+    symmetry. induction (j_plan j) as [|w t IH]; [reflexivity|]. simpl.
+    assert (K : fs_keep ow fs w = false).
+    { unfold fs_keep. rewrite (Eall (fst w)), Eow; [reflexivity|]. apply Hinc. simpl. auto. }
+    rewrite K. apply IH. intros x Hx. apply Hinc. simpl. auto.
+  Qed.
+
+  Lemma job_writes_agree ow a b j : wf_job j -> agree (j_files j) a b -> job_writes ow a j = job_writes ow b j.
+  Proof.
+    intros Hwf H. rewrite !job_writes_filter by exact Hwf. apply keep_ext. intros w Hw. unfold fs_isfile.
+    rewrite (H (fst w)); [reflexivity|]. apply (proj1 Hwf). apply in_map. exact Hw.
+  Qed.
+
+  Lemma job_writes_paths ow fs j p : wf_job j -> In p (map fst (job_writes ow fs j)) -> In p (j_files j).
+  Proof. intros Hwf H. rewrite job_writes_filter in H by exact Hwf. apply (proj1 Hwf). eapply in_map_fst_filter; eauto. Qed.
+
+  Lemma job_writes_nodup ow fs j : wf_job j -> NoDup (map fst (job_writes ow fs j)).
+  Proof. intro Hwf. rewrite job_writes_filter by exact Hwf. apply NoDup_map_fst_filter. exact (proj2 Hwf). Qed.
+
   (* ---- one (possibly interrupted) job ---------------------------------------------------------------------------- *)
   Lemma run_job_partial ow fs j : run_job ow fs j = partial_job ow fs (j, length (j_plan j)).
-  Proof. unfold run_job, partial_job. simpl. rewrite firstn_all. reflexivity. Qed.
+  Proof.
+    unfold run_job, partial_job. simpl. rewrite firstn_all2; [reflexivity|].
+    unfold job_writes. destruct (job_skips ow fs j); simpl; [lia|]. apply filter_length_le.
+  Qed.
 
   Lemma frame_partial ow fs j k p : wf_job j -> ~ In p (j_files j) -> fs_lookup (partial_job ow fs (j, k)) p = fs_lookup fs p.
   Proof.
-    intros [Hinc _] Hp. unfold partial_job. simpl. destruct (job_skips ow fs j); [reflexivity|].
-    apply lookup_writes_notin. intro Q. apply Hp, Hinc. eapply in_map_fst_firstn; eauto.
+    intros Hwf Hp. unfold partial_job. simpl.
+    apply lookup_writes_notin. intro Q. apply Hp. eapply job_writes_paths; [exact Hwf|]. eapply in_map_fst_firstn; eauto.
   Qed.
 
   Lemma local_partial ow a b j k :
     wf_job j -> agree (j_files j) a b -> agree (j_files j) (partial_job ow a (j, k)) (partial_job ow b (j, k)).
   Proof.
-    intros [Hinc Hnd] H. unfold partial_job. simpl. rewrite (skip_agree ow a b j H).
-    destruct (job_skips ow b j); [exact H|]. intros p Hp.
-    destruct (in_dec path_eq_dec p (map fst (firstn k (j_plan j)))) as [Hin|Hin].
+    intros Hwf H. unfold partial_job. simpl. rewrite (job_writes_agree ow a b j Hwf H). intros p Hp.
+    destruct (in_dec path_eq_dec p (map fst (firstn k (job_writes ow b j)))) as [Hin|Hin].
     - apply in_map_iff in Hin. destruct Hin as ([q c] & E & Hin). simpl in E. subst q.
-      rewrite !(lookup_writes_in content (firstn k (j_plan j)) _ p c); auto using NoDup_map_fst_firstn.
+      rewrite !(lookup_writes_in content (firstn k (job_writes ow b j)) _ p c); auto using NoDup_map_fst_firstn, job_writes_nodup.
     - rewrite !lookup_writes_notin by exact Hin. auto.
   Qed.
 
@@ -188,68 +209,57 @@ Section Jobs.
       intro Q. apply Hin. eapply Permutation_in; [apply Permutation_flat_map; apply Permutation_sym; exact Hperm|exact Q].
   Qed.
 
-  (* no-overwrite run: a molecule whose files all exist is skipped - its files keep their content ... *)
-  Lemma resume_preserves_content fs js j :
-    disjoint js -> (forall j, In j js -> wf_job j) -> In j js -> all_exist fs j ->
-    agree (j_files j) (run_jobs false fs js) fs.
+  (* no-overwrite run: EVERY file that exists keeps its content and is not written - whatever the jobs are *)
+  Lemma job_keeps_existing fs j p :
+    fs_isfile fs p = true -> fs_lookup (run_job false fs j) p = fs_lookup fs p /\ ~ In p (job_log false fs j).
   Proof.
-    intros Hd Hwf Hin Hex. eapply agree_trans; [apply char_jobs; eauto|].
-    unfold run_job. rewrite (all_exist_skips fs j Hex). apply agree_refl.
+    intro H.
+    assert (Q : ~ In p (map fst (job_writes false fs j))).
+    { unfold job_writes. destruct (job_skips false fs j); [intros []|]. apply keep_skipped. rewrite H. reflexivity. }
+    split; [apply lookup_writes_notin; exact Q|exact Q].
   Qed.
 
-  (* ... and are not written at all; files outside every job are never written *)
-  Lemma resume_preserves_log js : forall fs p,
-    disjoint js -> (forall j, In j js -> wf_job j) -> In p (run_log false fs js) ->
-    exists j, In j js /\ In p (j_files j) /\ job_skips false fs j = false.
+  Lemma resume_preserves js : forall fs p,
+    fs_isfile fs p = true ->
+    fs_lookup (run_jobs false fs js) p = fs_lookup fs p /\ ~ In p (run_log false fs js).
   Proof.
-    induction js as [|j0 t IH]; intros fs p Hd Hwf Hin; simpl in Hin; [destruct Hin|].
-    apply in_app_or in Hin. unfold disjoint in Hd. simpl in Hd. destruct Hin as [Hin|Hin].
-    - exists j0. unfold job_log in Hin. destruct (job_skips false fs j0) eqn:E; [destruct Hin|].
-      split; [simpl; auto|]. split; [|reflexivity]. apply (proj1 (Hwf j0 (or_introl eq_refl))). exact Hin.
-    - destruct (IH (run_job false fs j0) p (NoDup_app_r _ _ Hd) (fun j Hj => Hwf j (or_intror Hj)) Hin) as (j & Hj & Hp & Hs).
-      exists j. split; [simpl; auto|]. split; [exact Hp|].
-      transitivity (job_skips false (run_job false fs j0) j); [|exact Hs]. apply skip_agree.
-      intros q Hq. symmetry. rewrite run_job_partial. apply frame_partial; [apply Hwf; simpl; auto|].
-      intro Q. apply (NoDup_app_disjoint _ _ q Hd Q). apply in_flat_map. exists j. auto.
+    unfold run_jobs. induction js as [|j t IH]; intros fs p H; simpl; [split; [reflexivity|intros []]|].
+    destruct (job_keeps_existing fs j p H) as [K1 K2].
+    assert (H' : fs_isfile (run_job false fs j) p = true) by (unfold fs_isfile in *; rewrite K1; exact H).
+    destruct (IH (run_job false fs j) p H') as [I1 I2]. split.
+    - rewrite I1. exact K1.
+    - intro Q. apply in_app_or in Q. tauto.
   Qed.
 
-  Lemma resume_preserves_written fs js j p :
-    disjoint js -> (forall j, In j js -> wf_job j) -> In j js -> all_exist fs j -> In p (j_files j) ->
-    ~ In p (run_log false fs js).
+  (* so whatever a no-overwrite run writes was missing before the run *)
+  Lemma resume_writes_only_missing js fs p : In p (run_log false fs js) -> fs_isfile fs p = false.
   Proof.
-    intros Hd Hwf Hin Hex Hp Q. destruct (resume_preserves_log js fs p Hd Hwf Q) as (j' & Hj' & Hp' & Hs).
-    assert (j' = j \/ j' <> j) as [->|Hne].
-    { destruct (in_dec path_eq_dec p (j_files j')); [|tauto].
-      (* both list p: by disjointness they are the same element of the list or p occurs twice *)
-      clear -Hd Hin Hj' Hp Hp'. unfold disjoint in Hd. induction js as [|a t IH]; [destruct Hin|].
-      simpl in Hd. destruct Hin as [->|Hin], Hj' as [->|Hj'].
-      - left; reflexivity.
-      - exfalso. apply (NoDup_app_disjoint _ _ p Hd Hp). apply in_flat_map. exists j'. auto.
-      - exfalso. apply (NoDup_app_disjoint _ _ p Hd Hp'). apply in_flat_map. exists j. auto.
-      - apply IH; [exact (NoDup_app_r _ _ Hd)|assumption|assumption]. }
-    - rewrite (all_exist_skips fs j Hex) in Hs. discriminate.
-    - (* two different jobs listing p: impossible *)
-      clear -Hd Hin Hj' Hp Hp' Hne. unfold disjoint in Hd. induction js as [|a t IH]; [destruct Hin|].
-      simpl in Hd. destruct Hin as [->|Hin], Hj' as [->|Hj'].
-      + congruence.
-      + apply (NoDup_app_disjoint _ _ p Hd Hp). apply in_flat_map. exists j'. auto.
-      + apply (NoDup_app_disjoint _ _ p Hd Hp'). apply in_flat_map. exists j. auto.
-      + apply IH; [exact (NoDup_app_r _ _ Hd)|assumption|assumption].
+    intro H. destruct (fs_isfile fs p) eqn:E; [|reflexivity]. exfalso. exact (proj2 (resume_preserves js fs p E) H).
   Qed.
 
   Lemma outside_untouched ow fs js p :
     (forall j, In j js -> wf_job j) -> ~ In p (flat_map j_files js) -> fs_lookup (run_jobs ow fs js) p = fs_lookup fs p.
   Proof. apply frame_jobs. Qed.
 
+  (* what one job leaves at a planned path *)
+  Lemma run_job_planned ow fs j p c :
+    wf_job j -> In (p, c) (j_plan j) ->
+    fs_lookup (run_job ow fs j) p = if fs_isfile fs p && negb ow then fs_lookup fs p else Some c.
+  Proof.
+    intros Hwf Hpc. unfold run_job. rewrite job_writes_filter by exact Hwf.
+    destruct (fs_isfile fs p && negb ow) eqn:E.
+    - apply lookup_kept_writes_existing. exact E.
+    - apply lookup_kept_writes_new; [exact (proj2 Hwf)|exact Hpc|exact E].
+  Qed.
+
   (* after the run every molecule that can be fingerprinted has all its files *)
   Lemma resume_completes ow fs js j :
     disjoint js -> (forall j, In j js -> wf_job j) -> In j js -> complete j -> all_exist (run_jobs ow fs js) j.
   Proof.
     intros Hd Hwf Hin Hc p Hp. unfold fs_isfile. rewrite (char_jobs ow js fs j Hd Hwf Hin p Hp).
-    unfold run_job. destruct (job_skips ow fs j) eqn:E.
-    - apply (skips_all_exist ow fs j E p Hp).
-    - unfold complete in Hc. rewrite <- Hc in Hp. apply in_map_iff in Hp. destruct Hp as ([q c] & Eq & Hpc). simpl in Eq. subst q.
-      rewrite (lookup_writes_in content (j_plan j) fs p c (proj2 (Hwf j Hin)) Hpc). reflexivity.
+    unfold complete in Hc. rewrite <- Hc in Hp. apply in_map_iff in Hp. destruct Hp as ([q c] & Eq & Hpc). simpl in Eq. subst q.
+    rewrite (run_job_planned ow fs j p c (Hwf j Hin) Hpc). destruct (fs_isfile fs p && negb ow) eqn:E; [|reflexivity].
+    apply andb_true_iff in E. destruct E as [E _]. unfold fs_isfile in E. destruct (fs_lookup fs p); [reflexivity|discriminate].
   Qed.
 
   (* with overwrite every planned file is regenerated *)
@@ -261,48 +271,69 @@ Section Jobs.
     assert (Hp : In p (j_files j)).
     { apply (proj1 (Hwf j Hin)). change p with (fst (p, c)). apply in_map. exact Hpc. }
     split.
-    - rewrite (char_jobs true js fs j Hd Hwf Hin p Hp). unfold run_job. rewrite skips_overwrite.
-      apply lookup_writes_in; [exact (proj2 (Hwf j Hin))|exact Hpc].
-    - clear Hd Hwf Hp. revert fs. induction js as [|a t IH]; intro fs; [destruct Hin|]. simpl. apply in_or_app.
+    - rewrite (char_jobs true js fs j Hd Hwf Hin p Hp), (run_job_planned true fs j p c (Hwf j Hin) Hpc).
+      rewrite andb_false_r. reflexivity.
+    - clear Hd Hp. revert fs. induction js as [|a t IH]; intro fs; [destruct Hin|]. simpl. apply in_or_app.
       destruct Hin as [->|Hin].
-      + left. unfold job_log. rewrite skips_overwrite. change p with (fst (p, c)). apply in_map. exact Hpc.
-      + right. apply IH. exact Hin.
+      + left. unfold job_log. rewrite job_writes_filter by (apply Hwf; simpl; auto). rewrite keep_overwrite.
+        change p with (fst (p, c)). apply in_map. exact Hpc.
+      + right. apply IH; [intros; apply Hwf; simpl; auto|exact Hin].
+  Qed.
+
+  (* a half-written molecule (all_iters): its missing files are written, its existing ones are neither changed nor written *)
+  Lemma partial_molecule_completed fs j p c :
+    wf_job j -> In (p, c) (j_plan j) -> fs_isfile fs p = false ->
+    fs_lookup (run_job false fs j) p = Some c /\ In p (job_log false fs j) /\
+    (forall q, fs_isfile fs q = true -> fs_lookup (run_job false fs j) q = fs_lookup fs q /\ ~ In q (job_log false fs j)).
+  Proof.
+    intros Hwf Hpc Hm. split; [|split].
+    - rewrite (run_job_planned false fs j p c Hwf Hpc), Hm. reflexivity.
+    - unfold job_log. rewrite job_writes_filter by exact Hwf. change p with (fst (p, c)). apply in_map.
+      apply keep_kept; [exact Hpc|rewrite Hm; reflexivity].
+    - intros q Hq. apply job_keeps_existing. exact Hq.
   Qed.
 
   (* ---- interruption ------------------------------------------------------------------------------------------------ *)
   Lemma resume_one_job fs j k :
-    wf_job j -> all_or_nothing j ->
-    (forall p c, In (p, c) (j_plan j) -> fs_lookup fs p = None \/ fs_lookup fs p = Some c) ->
-    agree (j_files j) (run_job false (partial_job false fs (j, k)) j) (run_job false fs j).
+    wf_job j -> agree (j_files j) (run_job false (partial_job false fs (j, k)) j) (run_job false fs j).
   Proof.
-    intros [Hinc Hnd] Haon Hcons. unfold partial_job. simpl fst. simpl snd.
-    destruct (job_skips false fs j) eqn:E; [apply agree_refl|].
-    destruct Haon as [Hnil|Hc].
-    - rewrite Hnil. rewrite firstn_nil. unfold fs_writes. simpl. apply agree_refl.
-    - intros p Hp. unfold run_job at 2. rewrite E.
-      assert (Hpm : In p (map fst (j_plan j))) by (rewrite Hc; exact Hp).
-      apply in_map_iff in Hpm. destruct Hpm as ([q c] & Eq & Hpc). simpl in Eq. subst q.
-      rewrite (lookup_writes_in content (j_plan j) fs p c Hnd Hpc).
-      unfold run_job. destruct (job_skips false (fs_writes fs (firstn k (j_plan j))) j) eqn:E2.
-      + destruct (in_dec path_eq_dec p (map fst (firstn k (j_plan j)))) as [Hin|Hin].
-        * apply in_map_iff in Hin. destruct Hin as ([q c'] & Eq & Hin). simpl in Eq. subst q.
-          rewrite (lookup_writes_in content (firstn k (j_plan j)) fs p c' (NoDup_map_fst_firstn _ k Hnd) Hin).
-          f_equal. eapply NoDup_fst_functional; [exact Hnd|eapply in_firstn; exact Hin|exact Hpc].
-        * pose proof (skips_all_exist false _ j E2 p Hp) as Hex. unfold fs_isfile in Hex.
-          rewrite lookup_writes_notin in * by exact Hin.
-          destruct (Hcons p c Hpc) as [Hn|Hs]; [rewrite Hn in Hex; discriminate|exact Hs].
-      + apply lookup_writes_in; assumption.
+    intros Hwf p Hp. set (fs1 := partial_job false fs (j, k)).
+    assert (Hfs1 : fs1 = fs_writes fs (firstn k (filter (fs_keep false fs) (j_plan j)))).
+    { unfold fs1, partial_job. simpl. rewrite job_writes_filter by exact Hwf. reflexivity. }
+    destruct (in_dec path_eq_dec p (map fst (j_plan j))) as [Hin|Hin].
+    - apply in_map_iff in Hin. destruct Hin as ([q c] & Eq & Hpc). simpl in Eq. subst q.
+      rewrite (run_job_planned false fs1 j p c Hwf Hpc), (run_job_planned false fs j p c Hwf Hpc). rewrite !andb_true_r.
+      destruct (fs_isfile fs p) eqn:E.
+      + (* existed before: never written *)
+        assert (L1 : fs_lookup fs1 p = fs_lookup fs p).
+        { rewrite Hfs1. apply lookup_writes_notin. intro Q. apply in_map_fst_firstn in Q.
+          revert Q. apply keep_skipped. rewrite E. reflexivity. }
+        unfold fs_isfile. rewrite L1. unfold fs_isfile in E. rewrite E. destruct (fs_lookup fs p); [reflexivity|discriminate].
+      + (* missing before: written by the interrupted run or by the re-run, with the planned content *)
+        destruct (in_dec path_eq_dec p (map fst (firstn k (filter (fs_keep false fs) (j_plan j))))) as [Hw|Hw].
+        * apply in_map_iff in Hw. destruct Hw as ([q c'] & Eq & Hw). simpl in Eq. subst q.
+          assert (c' = c).
+          { eapply NoDup_fst_functional; [exact (proj2 Hwf)| |exact Hpc]. apply in_firstn in Hw. apply filter_In in Hw. tauto. }
+          subst c'.
+          assert (L1 : fs_lookup fs1 p = Some c).
+          { rewrite Hfs1. apply lookup_writes_in; [apply NoDup_map_fst_firstn, NoDup_map_fst_filter; exact (proj2 Hwf)|exact Hw]. }
+          unfold fs_isfile. rewrite L1. reflexivity.
+        * assert (L1 : fs_lookup fs1 p = fs_lookup fs p) by (rewrite Hfs1; apply lookup_writes_notin; exact Hw).
+          unfold fs_isfile. rewrite L1. unfold fs_isfile in E. rewrite E. reflexivity.
+    - assert (N1 : forall fs', ~ In p (map fst (job_writes false fs' j))).
+      { intros fs' Q. apply Hin. rewrite job_writes_filter in Q by exact Hwf. eapply in_map_fst_filter; eauto. }
+      unfold run_job. rewrite !lookup_writes_notin by apply N1.
+      rewrite Hfs1. apply lookup_writes_notin. intro Q. apply Hin. apply in_map_fst_firstn in Q. eapply in_map_fst_filter; eauto.
   Qed.
 
   (* every molecule may have been interrupted after any number of its own writes (any pool interleaving, any crash
      point); the re-run may complete the inputs in any order: the final directory is that of an uninterrupted run *)
   Lemma crash_then_resume fs jks js' p :
     let js := jobs_of jks in
-    disjoint js -> (forall j, In j js -> wf_job j) -> (forall j, In j js -> all_or_nothing j) ->
-    consistent fs js -> Permutation js js' ->
+    disjoint js -> (forall j, In j js -> wf_job j) -> Permutation js js' ->
     fs_lookup (run_jobs false (run_partial false fs jks) js') p = fs_lookup (run_jobs false fs js) p.
   Proof.
-    intros js Hd Hwf Haon Hcons Hperm.
+    intros js Hd Hwf Hperm.
     assert (Hd' : disjoint js') by (eapply disjoint_perm; eauto).
     assert (Hwf' : forall j, In j js' -> wf_job j) by (intros j Hj; apply Hwf; eapply Permutation_in; [apply Permutation_sym|]; eauto).
     destruct (in_dec path_eq_dec p (flat_map j_files js)) as [Hin|Hin].
@@ -310,7 +341,7 @@ Section Jobs.
       rewrite (char_jobs false js' _ j Hd' Hwf' (Permutation_in _ Hperm Hj) p Hp).
       rewrite (char_jobs false js fs j Hd Hwf Hj p Hp).
       pose proof Hj as Hjk. unfold js, jobs_of in Hjk. apply in_map_iff in Hjk. destruct Hjk as ([j1 k] & E & Hjk). simpl in E. subst j1.
-      rewrite <- (resume_one_job fs j k (Hwf j Hj) (Haon j Hj) (Hcons j Hj) p Hp).
+      rewrite <- (resume_one_job fs j k (Hwf j Hj) p Hp).
       rewrite !run_job_partial. apply local_partial; [apply Hwf; exact Hj| |exact Hp].
       apply char_partials; assumption.
     - rewrite frame_jobs; [|exact Hwf'|].
@@ -323,15 +354,15 @@ Section Jobs.
     match js with
     | [] => []
     | j :: t =>
-      let ws := if job_skips false fs j then [] else j_plan j in
-      if (length ws <=? k)%nat then length (j_plan j) :: prefix_counts (fs_writes fs ws) t (k - length ws)
+      let ws := job_writes false fs j in
+      if (length ws <=? k)%nat then length ws :: prefix_counts (fs_writes fs ws) t (k - length ws)
       else k :: map (fun _ => 0%nat) t
     end.
 
   Lemma run_partial_zero (t : list job) : forall fs, run_partial false fs (combine t (map (fun _ => 0%nat) t)) = fs.
   Proof.
     unfold run_partial. induction t as [|j t IH]; intro fs; simpl; [reflexivity|].
-    unfold partial_job at 2. simpl. destruct (job_skips false fs j); apply IH.
+    unfold partial_job at 2. simpl. apply IH.
   Qed.
 
   Lemma run_interrupted_partial js : forall fs k,
@@ -340,10 +371,9 @@ Section Jobs.
     induction js as [|j t IH]; intros fs k; simpl; [reflexivity|].
     destruct (Nat.leb _ k) eqn:E.
     - unfold run_partial. simpl. rewrite IH. unfold run_partial. f_equal.
-      unfold partial_job. simpl. destruct (job_skips false fs j); [reflexivity|]. rewrite firstn_all. reflexivity.
+      unfold partial_job. simpl. rewrite firstn_all. reflexivity.
     - unfold run_partial. simpl.
-      assert (Q : partial_job false fs (j, k) = fs_writes fs (firstn k (if job_skips false fs j then [] else j_plan j))).
-      { unfold partial_job. simpl. destruct (job_skips false fs j); [rewrite firstn_nil; reflexivity|reflexivity]. }
+      assert (Q : partial_job false fs (j, k) = fs_writes fs (firstn k (job_writes false fs j))) by reflexivity.
       rewrite Q. symmetry. exact (run_partial_zero t _).
   Qed.
 
@@ -360,22 +390,12 @@ Section Jobs.
   Qed.
 
   Lemma crash_then_resume_serial fs js js' k p :
-    disjoint js -> (forall j, In j js -> wf_job j) -> (forall j, In j js -> all_or_nothing j) ->
-    consistent fs js -> Permutation js js' ->
+    disjoint js -> (forall j, In j js -> wf_job j) -> Permutation js js' ->
     fs_lookup (run_jobs false (run_interrupted false fs js k) js') p = fs_lookup (run_jobs false fs js) p.
   Proof.
-    intros Hd Hwf Haon Hcons Hperm. rewrite run_interrupted_partial.
+    intros Hd Hwf Hperm. rewrite run_interrupted_partial.
     pose proof (jobs_of_combine js (prefix_counts fs js k) (prefix_counts_length js fs k)) as E.
     pose proof (crash_then_resume fs (combine js (prefix_counts fs js k)) js' p) as Q. cbv zeta in Q.
     rewrite E in Q. apply Q; assumption.
-  Qed.
-
-  (* all_iters: a molecule with some but not all of its level files is recomputed and ALL its files are written again *)
-  Lemma partial_molecule_rewritten fs j p :
-    In p (j_files j) -> fs_isfile fs p = false -> job_log false fs j = map fst (j_plan j).
-  Proof.
-    intros Hp Hmiss. unfold job_log, job_skips. rewrite andb_true_r.
-    destruct (forallb (fs_isfile fs) (j_files j)) eqn:E; [|reflexivity].
-    rewrite forallb_forall in E. rewrite (E p Hp) in Hmiss. discriminate.
   Qed.
 End Jobs.
